@@ -670,7 +670,8 @@ func (x *Exec) run(fr *Frame, st *State, b *ssa.BasicBlock, pred *ssa.BasicBlock
 	for ; i < len(b.Instrs); i++ {
 		ins := b.Instrs[i]
 		x.curFrame = fr
-		if fr.ctx != nil && fr == fr.ctx.top && len(fr.ctx.contract.LineHooks) > 0 {
+		if fr.ctx != nil && fr.ctx.contract != nil && len(fr.ctx.contract.LineHooks) > 0 && (fr == fr.ctx.top || isClosureOf(fr.fn, fr.ctx.top.fn)) {
+			// line hooks also fire inside the inlined closures of the function (once.Do bodies)
 			x.lineHooks(fr, st, ins)
 		}
 		switch v := ins.(type) {
@@ -1164,4 +1165,14 @@ func (x *Exec) lineHooks(fr *Frame, st *State, ins ssa.Instruction) {
 		c := st.cells[id]
 		x.store(st, &Loc{Kind: LCell, CellID: id, Root: c.Typ, Typ: c.Typ}, v)
 	}
+}
+
+// isClosureOf: f is a function literal (transitively) nested in g.
+func isClosureOf(f, g *ssa.Function) bool {
+	for p := f.Parent(); p != nil; p = p.Parent() {
+		if p == g {
+			return true
+		}
+	}
+	return false
 }
